@@ -46,8 +46,23 @@ def main():
             print(out_c[-1500:])
         return
     try_only = "--try-only" in sys.argv
+    pre = os.path.join(src, "confirm.txt")
+
+    def confirm():
+        # a confirmation made beforehand (tools/seeded_confirm.sh <dir> > <dir>/confirm.txt, possibly in parallel
+        # in several scratch clones) is used as it is
+        if os.environ.get("SEED_WAIT_CONFIRM"):
+            import time
+            for _ in range(3600):
+                if os.path.exists(pre) and "baseline:" in open(pre).read():
+                    break
+                time.sleep(2)
+        if os.path.exists(pre) and "baseline:" in open(pre).read():
+            return 0, open(pre).read()
+        return run([os.path.join(VERIF, "tools", "seeded_confirm.sh"), src])
+
     with ThreadPoolExecutor(2) as ex:
-        fc = ex.submit(run, ["true"] if try_only else [os.path.join(VERIF, "tools", "seeded_confirm.sh"), src])
+        fc = ex.submit(run, ["true"]) if try_only else ex.submit(confirm)
         ft = ex.submit(run, [os.path.join(VERIF, "tools", "seeded_try.sh"), src, pid] + others)
         rc_c, out_c = fc.result()
         rc_t, out_t = ft.result()
